@@ -29,7 +29,8 @@ class Namespace(typing.Generic[T]):
         "oneliner.expr_transform.PendingComp | oneliner.expr_transform.PendingLambda"
     ]
 
-    # names declared global here that are local names of an enclosing function:
+    # global names of this scope (declared here, or in a function in between)
+    # that are local names of an enclosing function:
     # a plain name would read the variable of that function (the lambdas nest)
     shadowed_global_names: set[str]
 
@@ -41,7 +42,7 @@ class Namespace(typing.Generic[T]):
 
         self.shadowed_global_names = set()
         for symbol in symt.get_symbols():
-            if not symbol.is_declared_global():
+            if not symbol.is_global():
                 continue
             for outer in stack:
                 if not isinstance(outer, NamespaceFunction):
